@@ -542,8 +542,9 @@ func builtinArrayLastIndexOf(call FunctionCall) Value {
 func builtinArrayEvery(call FunctionCall) Value {
 	thisObject := call.thisObject()
 	this := objectValue(thisObject)
+	// length is read before the callback is tested (15.4.4.16-22 steps 2-4)
+	length := int64(toUint32(thisObject.get(propertyLength)))
 	if iterator := call.Argument(0); iterator.isCallable() {
-		length := int64(toUint32(thisObject.get(propertyLength)))
 		callThis := call.Argument(1)
 		for index := range length {
 			if key := arrayIndexToString(index); thisObject.hasProperty(key) {
@@ -561,8 +562,9 @@ func builtinArrayEvery(call FunctionCall) Value {
 func builtinArraySome(call FunctionCall) Value {
 	thisObject := call.thisObject()
 	this := objectValue(thisObject)
+	// length is read before the callback is tested (15.4.4.16-22 steps 2-4)
+	length := int64(toUint32(thisObject.get(propertyLength)))
 	if iterator := call.Argument(0); iterator.isCallable() {
-		length := int64(toUint32(thisObject.get(propertyLength)))
 		callThis := call.Argument(1)
 		for index := range length {
 			if key := arrayIndexToString(index); thisObject.hasProperty(key) {
@@ -579,8 +581,9 @@ func builtinArraySome(call FunctionCall) Value {
 func builtinArrayForEach(call FunctionCall) Value {
 	thisObject := call.thisObject()
 	this := objectValue(thisObject)
+	// length is read before the callback is tested (15.4.4.16-22 steps 2-4)
+	length := int64(toUint32(thisObject.get(propertyLength)))
 	if iterator := call.Argument(0); iterator.isCallable() {
-		length := int64(toUint32(thisObject.get(propertyLength)))
 		callThis := call.Argument(1)
 		for index := range length {
 			if key := arrayIndexToString(index); thisObject.hasProperty(key) {
@@ -595,8 +598,9 @@ func builtinArrayForEach(call FunctionCall) Value {
 func builtinArrayMap(call FunctionCall) Value {
 	thisObject := call.thisObject()
 	this := objectValue(thisObject)
+	// length is read before the callback is tested (15.4.4.16-22 steps 2-4)
+	length := int64(toUint32(thisObject.get(propertyLength)))
 	if iterator := call.Argument(0); iterator.isCallable() {
-		length := int64(toUint32(thisObject.get(propertyLength)))
 		callThis := call.Argument(1)
 		values := make([]Value, length)
 		for index := range length {
@@ -614,8 +618,9 @@ func builtinArrayMap(call FunctionCall) Value {
 func builtinArrayFilter(call FunctionCall) Value {
 	thisObject := call.thisObject()
 	this := objectValue(thisObject)
+	// length is read before the callback is tested (15.4.4.16-22 steps 2-4)
+	length := int64(toUint32(thisObject.get(propertyLength)))
 	if iterator := call.Argument(0); iterator.isCallable() {
-		length := int64(toUint32(thisObject.get(propertyLength)))
 		callThis := call.Argument(1)
 		values := make([]Value, 0)
 		for index := range length {
@@ -634,10 +639,11 @@ func builtinArrayFilter(call FunctionCall) Value {
 func builtinArrayReduce(call FunctionCall) Value {
 	thisObject := call.thisObject()
 	this := objectValue(thisObject)
+	// length is read before the callback is tested (15.4.4.16-22 steps 2-4)
+	length := int64(toUint32(thisObject.get(propertyLength)))
 	if iterator := call.Argument(0); iterator.isCallable() {
 		initial := len(call.ArgumentList) > 1
 		start := call.Argument(1)
-		length := int64(toUint32(thisObject.get(propertyLength)))
 		index := int64(0)
 		if length > 0 || initial {
 			var accumulator Value
@@ -673,10 +679,11 @@ func builtinArrayReduce(call FunctionCall) Value {
 func builtinArrayReduceRight(call FunctionCall) Value {
 	thisObject := call.thisObject()
 	this := objectValue(thisObject)
+	// length is read before the callback is tested (15.4.4.16-22 steps 2-4)
+	length := int64(toUint32(thisObject.get(propertyLength)))
 	if iterator := call.Argument(0); iterator.isCallable() {
 		initial := len(call.ArgumentList) > 1
 		start := call.Argument(1)
-		length := int64(toUint32(thisObject.get(propertyLength)))
 		if length > 0 || initial {
 			index := length - 1
 			var accumulator Value
